@@ -41,6 +41,7 @@ def _case(draw, kind=None):
                                                                                         -4.3429e-7, 4.3429e-9, 4.3429e-11]))
     c = {"kind": kind, "prop": draw(st.sampled_from(props)), "logm": logm, "bad": draw(st.integers(0, len(BAD) - 1)),
          "radius": draw(zoo.f(-2, 0.5)), "centre_to": [draw(zoo.f(-10, 10)) for _ in range(3)]}
+    c["xs"] = draw(st.sampled_from([0.0, 0.0, 0.0, 0.0, -3.0, -6.0, 3.0]))  # length units (vertex shapes)
     if kind in ("ConvexPolyhedron", "Polyhedron", "ConvexSpheropolyhedron"):
         c["cvx"] = draw(zoo.convex3d(max_n=14))
         c["place"] = draw(zoo.placement(max_offset=4.0))
@@ -246,7 +247,10 @@ def _run(case, rec):
     else:
         # the getter re-measures the rescaled shape where it stands: its noise is a few hundred eps of the coordinates
         noise = 1e3 * 2.0**-52 * (maxnorm(V1) if V1 is not None else float(np.linalg.norm(C1))) ** d
-        rec.close("read_back", call(getattr, obj, prop), target, 1e-12 * target + noise + 1e-300, sig)
+        # circum-/in-ball radii are read back through a least-squares fit that mixes unit normals with coordinates: in
+        # length units of 1e-6 it keeps ~10 digits (C13 grants the same)
+        fit = 1e-9 * target if ("circum" in prop or "insphere" in prop or "incircle" in prop) and abs(case.get("xs", 0.0)) >= 3 else 0.0
+        rec.close("read_back", call(getattr, obj, prop), target, 1e-12 * target + noise + fit + 1e-300, sig)
     # similarity of the defining data
     if V0 is not None:
         a0, a1 = V0 - V0[0], V1 - V1[0]
